@@ -36,10 +36,16 @@ def mk_variants(rng, entries, r, implicit_ok=True, fancy=False) -> List[Variant]
     """entries: list of (disc, ident, rename|None) in declaration order"""
     out = []
     nxt = 0
+    FOREIGN = ["/// a doc comment", "#[allow(dead_code)]", "#[doc = \"x\"]", "#[allow(non_camel_case_types)]"]
     for (d, ident, ren) in entries:
         attrs = []
         if ren is not None:
             attrs.append(VAttr("rename", ren))
+        # foreign attributes before and/or after the rename (and on variants without one)
+        if rng.random() < 0.2:
+            for _ in range(rng.choice([1, 1, 2])):
+                a = VAttr("foreign", text=rng.choice(FOREIGN))
+                attrs.insert(rng.choice([0, len(attrs)]), a)
         if implicit_ok and d == nxt and rng.random() < 0.5:
             disc = Disc("none")
         elif d < 0:
@@ -406,6 +412,12 @@ class Corpus:
     # --- regression witnesses of recorded defects and past failures
     def fam_regressions(self):
         # D1: negative start in a later run; D3: first run at type MIN; table modes
+        # degenerate sizes: code paths that special-case "nothing before / nothing after"
+        self.add_decl("R", "u8", [7], ["match", "table", "auto"], note="single variant")
+        self.add_decl("R", "i8", [-128], ["table", "match"], note="single variant at type MIN")
+        self.add_decl("R", "u8", [255], ["table", "auto"], note="single variant at type MAX")
+        self.add_decl("R", "i16", [0, 1], ["match", "table"], note="two variants gapless")
+        self.add_decl("R", "u8", [0, 200], ["match", "table"], note="two variants two runs")
         self.add_decl("R", "i8", [-10, -5, -4, 3], ["table", "match"], note="D1 negative later run")
         self.add_decl("R", "i8", [-128, -127, -5, 100], ["table", "match"], note="D3 first run at type MIN")
         self.add_decl("R", "i64", [-(1 << 63), -5, -4, (1 << 63) - 1], ["table", "match"], note="i64 limits")
@@ -561,6 +573,34 @@ class Corpus:
             ents = [(d, ids[j], None) for j, d in enumerate(vals)]       # ascending by value and by name
             feats = config(kind, gapless, rng) + [("sorted", {w: None for w in which})]
             s = mk_subject(self.sid("S"), r, ents, feats, rng, split=rng.choice([1, 2]), family="S", note=f"sorted({','.join(which)}) cfg={kind}")
+            self.add(s, iter_count=3, str_limit=1)
+        # sorted(name) alone says nothing about the discriminants, sorted(value) alone nothing about the names
+        for i in range(2 * n):
+            r = rng.choice(["i8", "u16", "i32", "i64", "u8"])
+            runs = random_runs(rng, r, rng.choice([1, 2, 3]), 4, span=60 if REPRS[r][1] > 8 else None)
+            vals = runs_to_vals(runs)
+            if len(vals) < 3:
+                continue
+            gapless = len(runs) == 1
+            kind = ["table", "match", "auto"][i % 3]
+            if i % 2 == 0:
+                # names ascending in declaration order, discriminants shuffled
+                perm = vals[:]
+                while perm == vals:
+                    rng.shuffle(perm)
+                ids = sorted(f"N{j:03d}" for j in range(len(vals)))
+                ents = [(perm[j], ids[j], None) for j in range(len(vals))]
+                which = ["name"]
+            else:
+                # discriminants ascending, names (renames) shuffled
+                ids = [f"W{j:03d}" for j in range(len(vals))]
+                rn = [f"r{j:03d}" for j in range(len(vals))]
+                rng.shuffle(rn)
+                ents = [(vals[j], ids[j], rn[j]) for j in range(len(vals))]
+                which = ["value"]
+            feats = config(kind, gapless, rng) + [("sorted", {w: None for w in which})]
+            s = mk_subject(self.sid("S"), r, ents, feats, rng, split=rng.choice([1, 2]), family="S", implicit_ok=False,
+                           note=f"sorted({which[0]}) only, other order free cfg={kind}")
             self.add(s, iter_count=3, str_limit=1)
 
     def build(self):
